@@ -146,6 +146,13 @@ CORPUS = [
     'SELECT j, count(*) AS n FROM #t GROUP BY j',
     'SELECT s, count(*) AS n FROM #t GROUP BY s HAVING max(j) > 4',
     'SELECT s, count(*) AS n FROM #t GROUP BY s HAVING count(j)',
+    # aggregates below COALESCE are aggregates; LIMIT cuts groups, not the rows folded into them
+    "SELECT s, coalesce(max(t), 'none') AS m, coalesce(sum(j), 0) AS x FROM #t GROUP BY s",
+    "SELECT coalesce(sum(j), 0) AS x, coalesce(max(s), '-') AS m FROM #t",
+    "SELECT s, coalesce(sum(j), 0) + 1 AS x FROM #t",
+    'SELECT s, sum(i) AS x, count(*) AS n, last(i) AS l FROM #t GROUP BY s LIMIT 2',
+    'SELECT t, min(i) AS lo, max(i) AS hi FROM #t GROUP BY t LIMIT 1',
+    'SELECT a, x FROM (SELECT s AS a, sum(i) AS x FROM #t GROUP BY s LIMIT 2)',
 ]
 
 
